@@ -28,7 +28,7 @@ func (Engine) Runs(prop, tier string) int {
 	if tier == "thorough" {
 		return 120000
 	}
-	return 6000
+	return 10000
 }
 func (Engine) Real() []string {
 	return []string{"share/dkg/pedersen: Protocol (goroutine, select loop, set), DistKeyGenerator, VerifyPacketSignature, StatusMatrix",
